@@ -34,14 +34,21 @@ func arrParts(s Sort) (Sort, Sort) {
 	str := strings.TrimSuffix(strings.TrimPrefix(string(s), "(Array "), ")")
 	// split at top-level space
 	depth := 0
+	quoted := false
 	for i, r := range str {
 		switch r {
+		case '|':
+			quoted = !quoted
 		case '(':
-			depth++
+			if !quoted {
+				depth++
+			}
 		case ')':
-			depth--
+			if !quoted {
+				depth--
+			}
 		case ' ':
-			if depth == 0 {
+			if depth == 0 && !quoted {
 				return Sort(str[:i]), Sort(str[i+1:])
 			}
 		}
